@@ -57,8 +57,10 @@ FLAVOURS = {
     # g++ without -ffast-math and without -DNDEBUG: IEEE semantics, asserts on
     'n': dict(cxx='g++', cflags=['-std=c++17', '-O1', '-g0', '-w', '-fno-fast-math'], ldflags=[]),
     # sanitizer flavour (C20): ASan + UBSan (incl. enum, bounds, signed overflow), libstdc++ assertions; aborts on the first report
-    's': dict(cxx='g++', cflags=['-std=c++17', '-O1', '-g1', '-w', '-fsanitize=address,undefined', '-fno-sanitize-recover=all', '-fno-omit-frame-pointer', '-D_GLIBCXX_ASSERTIONS'],
+    's': dict(cxx='g++', cflags=['-std=c++17', '-O0', '-g1', '-w', '-fsanitize=address,undefined', '-fsanitize=float-cast-overflow', '-fno-sanitize-recover=all', '-fno-omit-frame-pointer', '-D_GLIBCXX_ASSERTIONS'],
               ldflags=['-fsanitize=address,undefined']),
+    # libFuzzer flavour: clang, coverage-guided, ASan + UBSan
+    'f': dict(cxx='clang++', cflags=['-std=c++17', '-g', '-O1', '-w', '-fsanitize=fuzzer,address,undefined', '-fno-sanitize-recover=undefined'], ldflags=['-fsanitize=fuzzer,address,undefined']),
 }
 
 def O(src, tree, defs=(), opt=None, san=True):
@@ -67,6 +69,7 @@ def O(src, tree, defs=(), opt=None, san=True):
 NT3 = [['-DVF_NT=0'], ['-DVF_NT=1'], ['-DVF_NT=2']]
 BINARIES = {
     'introspect': dict(objs=[O('introspect.cpp', True, opt='-O0')], libs=[]),
+    'fuzz_parsers': dict(objs=[O('fuzz_parsers.cpp', True)], libs=[]),
 }
 ENGINE_LIBS = ['-lrapidcheck', '-lquadmath']
 
@@ -227,7 +230,7 @@ def run_engine(run, binary, exe, filters, flavour='n', scale=None, timeout=None,
     env = dict(os.environ, VERIF_SEED=str(SEED), VERIF_OUT=out)
     if scale is not None: env['VERIF_SCALE'] = str(scale)
     if flavour == 's':
-        env['ASAN_OPTIONS'] = 'detect_leaks=1:abort_on_error=0:exitcode=97:allocator_may_return_null=1'
+        env['ASAN_OPTIONS'] = 'detect_leaks=0:abort_on_error=0:exitcode=97:allocator_may_return_null=1'
         env['UBSAN_OPTIONS'] = 'print_stacktrace=1:halt_on_error=1:exitcode=98'
     if extra_env: env.update(extra_env)
     cmd = [exe, 'run', run.tier] + filters
